@@ -25,7 +25,7 @@ func init() {
 			"C08.1 (thorough) explicit panics reachable on the encode path are inventoried against a category table. "+
 			"NOT decided: panics inside arrow-go, pdata and the CBOR library; Append errors of arrow dictionary builders (recorded assumption).",
 		"array.RecordBuilder.NewRecord resets every column builder", "arrow dictionary builders' Append does not fail for in-memory values")
-	register("C08", &core.Rule{ID: "C08.2", Title: "16-bit id counters are guarded by an error return", Mod: core.ModRoot, Floor: 12, Run: c08_2, Canary: c08_2Canary})
+	register("C08", &core.Rule{ID: "C08.2", Title: "16-bit id counters are guarded by an error return", Mod: core.ModRoot, Floor: 10, Run: c08_2, Canary: c08_2Canary})
 	register("C08", &core.Rule{ID: "C08.3", Title: "nil-returning results are tested before use", Mod: core.ModRoot, Floor: 5, Run: c08_3})
 	register("C08", &core.Rule{ID: "RT.13", Title: "list item nodes are never optional on their own", Mod: core.ModRoot, Floor: 1, Run: rt_13})
 	register("C03", &core.Rule{ID: "RT.13", Title: "list item nodes are never optional on their own (all-zero lists survive)", Mod: core.ModRoot, Floor: 1, Run: rt_13})
@@ -114,6 +114,18 @@ type counterSite struct {
 	phi   *ssa.Phi
 	field *types.Var
 	wide  bool // wider variable converted down
+	// a field of a local struct, advanced by one in a method called on the struct (`res.enter(key)` … `res.id`)
+	cellAl    *ssa.Alloc
+	cellField int
+	cellAt    ssa.Instruction // the first call that is handed the struct (where the counter advances)
+}
+
+// at: the instruction that stands for "the counter advances here".
+func (cs *counterSite) at() ssa.Instruction {
+	if cs.add != nil {
+		return cs.add
+	}
+	return cs.cellAt
 }
 
 func intBits(t types.Type) (bits int, unsigned bool) {
@@ -221,12 +233,71 @@ func findCounters(fn *ssa.Function) []counterSite {
 		}
 		out = append(out, cs)
 	})
+	// counters kept in a field of a local struct and advanced in a method called on it: found at the place where
+	// the field is converted down to 16 (or 32) bits
+	type cellKey struct {
+		al *ssa.Alloc
+		f  int
+	}
+	seenCell := map[cellKey]bool{}
+	core.EachInstr(fn, func(j ssa.Instruction) {
+		cv, ok := j.(*ssa.Convert)
+		if !ok {
+			return
+		}
+		tb, _ := intBits(cv.Type())
+		u, ok := core.StripConv(cv.X).(*ssa.UnOp)
+		if !ok || u.Op != token.MUL || (tb != 16 && tb != 32) {
+			return
+		}
+		sb, _ := intBits(u.Type())
+		fa, ok := u.X.(*ssa.FieldAddr)
+		if !ok || sb <= tb {
+			return
+		}
+		al, ok := core.Strip(fa.X).(*ssa.Alloc)
+		if !ok || seenCell[cellKey{al, fa.Field}] {
+			return
+		}
+		if _, inc, why := fieldCellDefs(al, fa.Field); !inc || why != "" {
+			return
+		}
+		seenCell[cellKey{al, fa.Field}] = true
+		cs := counterSite{fn: fn, bits: tb, wide: true, cellAl: al, cellField: fa.Field, label: al.Comment + "." + core.FieldName(fa)}
+		// where it advances: the first call that is handed the struct
+		core.EachInstr(fn, func(k ssa.Instruction) {
+			ci, ok := k.(ssa.CallInstruction)
+			if !ok || cs.cellAt != nil {
+				return
+			}
+			if h := ci.Common().StaticCallee(); h == nil || len(h.Blocks) == 0 {
+				return
+			}
+			for _, a := range ci.Common().Args {
+				if core.Strip(a) == ssa.Value(al) {
+					cs.cellAt = k
+				}
+			}
+		})
+		if cs.cellAt == nil {
+			cs.cellAt = cv
+		}
+		out = append(out, cs)
+	})
 	return out
 }
 
 // sameVar: v denotes the counter variable (its φ, its incremented value, or a load of its field).
 func (cs *counterSite) sameVar(v ssa.Value) bool {
 	v = core.StripConv(v)
+	if cs.cellAl != nil {
+		u, ok := v.(*ssa.UnOp)
+		if !ok || u.Op != token.MUL {
+			return false
+		}
+		fa, ok := u.X.(*ssa.FieldAddr)
+		return ok && fa.Field == cs.cellField && core.Strip(fa.X) == ssa.Value(cs.cellAl)
+	}
 	if cs.phi != nil {
 		if v == ssa.Value(cs.phi) || v == ssa.Value(cs.add) {
 			return true
@@ -377,7 +448,7 @@ func c08_2(c *core.Ctx, p *core.Prog) {
 			if seen[base] > 1 {
 				key = fmt.Sprintf("%s#%d", base, seen[base])
 			}
-			pos := p.Pos(cs.add.Pos())
+			pos := p.Pos(cs.at().Pos())
 			// guards: If comparing the same variable with max
 			type guard struct {
 				iff     *ssa.If
@@ -507,7 +578,7 @@ func c08_2(c *core.Ctx, p *core.Prog) {
 					if !uses {
 						return
 					}
-					if unchecked, _ := (core.PathQuery{Fn: fn, From: cs.add, To: i, Avoid: isGuard}).Exists(); unchecked {
+					if unchecked, _ := (core.PathQuery{Fn: fn, From: cs.at(), To: i, Avoid: isGuard}).Exists(); unchecked {
 						msgs = append(msgs, fmt.Sprintf("the id is handed to %s at %s before it was compared with 65535: past the limit the truncated id goes down and the delta-encoded id column panics before the guard is reached", f.Name(), p.Pos(i.Pos())))
 					}
 				})
